@@ -120,17 +120,22 @@ CLAIMED = {
         "technique": "translation validation: regenerated fact lists + sound boolean checkers evaluated in Coq",
     },
     "C01": {
-        "text": "Machine-checked theorems over EVERY well-formed static file system, path, trailing mode and NO_SYMLINKS setting: the "
-                "emulated walk equals the kernel reference walk whenever the kernel stays within its 40-link budget; both walks only "
-                "return objects reachable from the root; the empty path is ENOENT; loops end in ELOOP (total functions). The reference "
-                "walk is validated against the running kernel's raw openat2 and the emulated-walk model against the library's emulated "
-                "backend on every run, on generated trees/paths; the library (resolve, readlink, open_subpath incl. F_GETFL) is compared "
-                "with raw openat2 under both kernel feature sets.",
-        "note": "Trusted: Coq kernel (no axioms); the hand-written walk models coq/theories/FSModel.v (kwalk = description of Linux, "
-                "ewalk = description of imp.rs on a static tree), both tied by differential runs on sampled trees, not proved equal to "
-                "the C/Rust code; the step from the syscall-level model (Prog) to ewalk is covered by T1 replay in C05/C11, not by a "
-                "theorem. No DAC/MAC permissions modelled. Known finding F-H (41..127 links).",
-        "technique": "Coq proof (simulation between two component-queue machines over an abstract FS) + differential against the kernel's raw openat2",
+        "text": "Machine-checked theorems over EVERY well-formed static file system, path, trailing mode and NO_SYMLINKS setting: (1) the "
+                "model PROGRAM of opath::resolve (the one tie T1 replays against the library call by call), executed on a static kernel "
+                "model, returns a descriptor for exactly the object the pure emulated walk ends on, or its errno, and never panics "
+                "(refinement, Rc/descriptor invariants included); (2) the emulated walk equals the kernel reference walk whenever the "
+                "kernel stays within its 40-link budget; both walks only return objects reachable from the root; the empty path is "
+                "ENOENT; loops end in ELOOP. Ties on every run: reference walk vs the kernel's raw openat2 (T2), walk model vs the "
+                "library's emulated backend (T2), static kernel model vs the real answers recorded for the library's own calls (T2'); "
+                "the library (resolve, readlink, open_subpath incl. F_GETFL) is compared with raw openat2 under both feature sets.",
+        "note": "Trusted: Coq kernel (no axioms); the hand-written models coq/theories/FSModel.v (kwalk = description of Linux), "
+                "Static.v (per-call answers of Linux on a static tree) and OpathM.v (imp.rs), all tied by differential runs / trace "
+                "replay, not proved equal to the C/Rust code. The refinement theorem is parametric in the check routine: it holds for "
+                "every routine that succeeds when the walk is where it believes to be; that check_current is such a routine on a "
+                "quiescent tree (it goes through procfs, which Static.v does not model) is exercised by T1/T2, not proved. "
+                "No DAC/MAC permissions modelled. Known finding F-H (41..127 links).",
+        "technique": "Coq proof (refinement of the syscall-level program to a pure walk + simulation between two component-queue machines "
+                     "over an abstract FS) + differentials against the kernel's raw openat2 and recorded syscall answers",
     },
     "C02": {
         "text": "Machine-checked theorems over all kernel answers (= every attacker acting at any syscall boundary): the emulated walk "
